@@ -3,7 +3,11 @@
 use crate::core::{Acc, CaseResult, ShardCtx};
 use serde_json::Value;
 
+pub mod c09;
 pub mod c10;
+pub mod c16;
+pub mod c19;
+pub mod c20;
 
 pub struct PropDef {
     pub id:          &'static str,
@@ -22,7 +26,7 @@ pub struct PropDef {
 }
 
 pub fn all() -> Vec<PropDef> {
-    vec![c10::def()]
+    vec![c09::def(), c10::def(), c16::def(), c19::def(), c20::def()]
 }
 
 pub fn find(id: &str) -> Option<PropDef> {
